@@ -208,7 +208,8 @@ type runSpec struct {
 	failAt int
 	retry  string // "": plain history; "503" | "veto" | "refuse": how the first handshake of a retry history fails
 	hist   []step
-	label  string // canonical | random-<n> | succession-<n>
+	label  string       // canonical | random-<n> | succession-<n> | composed-<name>
+	comp   *composition // composition pass: the option list replaces the one derived from cfg (cfg then only says which families are present)
 }
 
 // stepRec is one executed step of a history.
@@ -257,6 +258,13 @@ type runResult struct {
 	staleTok   string // context token of the failed first handshake of a retry history
 	broken     string // the scripted failure of the first handshake did not happen
 	noStream   bool   // Streamable: no listening-stream GET followed the successful handshake
+
+	// composition pass
+	alts       []string        // every path named by a WithClientPath option (the server serves them all; the last is "served")
+	mutatedAt  int             // server log length when the caller mutated its header objects (-1: it did not)
+	libTouched int             // caller's header objects that no longer held what was handed over once the client(s) were built
+	inPlace    map[string]bool // canonical header names whose value slices the caller wrote in place
+	decoys     int             // other clients built from the shared base options
 }
 
 type rootsProv struct{ roots []mcp.Root }
@@ -285,7 +293,8 @@ var runCounter int
 func execute(sp runSpec) *runResult {
 	runCounter++
 	c := sp.cfg
-	res := &runResult{spec: sp, sid: fmt.Sprintf("sess-%d-%dx", runCounter, c.mask())}
+	res := &runResult{spec: sp, sid: fmt.Sprintf("sess-%d-%dx", runCounter, c.mask()), mutatedAt: -1}
+	cp := sp.comp
 	urlPath := ""
 	if sp.client == clStream {
 		res.served, urlPath = "/mcp", "/mcp"
@@ -298,8 +307,17 @@ func execute(sp runSpec) *runResult {
 			res.served, res.msgPath = "/custom/sse-x", "/custom/msg-x"
 		}
 	}
+	res.alts = []string{res.served}
+	if cp != nil && c.P {
+		res.alts = cp.paths(sp.client)
+		res.served = res.alts[len(res.alts)-1]
+	}
 	prefix := fmt.Sprintf("r%d/", runCounter) // tokens are unique per run: a value leaking from an earlier client is visible
 	srv := newRefServer(sp.client, res.served, res.msgPath, res.sid)
+	srv.alt = map[string]bool{}
+	for _, p := range res.alts {
+		srv.alt[p] = true
+	}
 	if sp.retry == "refuse" {
 		if e := srv.reserve(); e != nil {
 			res.newErr = "reserve address: " + e.Error()
@@ -324,6 +342,13 @@ func execute(sp runSpec) *runResult {
 	}()
 
 	opts := []mcp.ClientOption{mcp.WithClientLogger(kit.Quiet{})}
+	var built *builtComp
+	if cp != nil {
+		built = cp.build(sp.client, l)
+		defer built.restore()
+		opts = append(opts, built.opts...)
+		c = cfg{} // the option list is complete
+	}
 	if c.H {
 		opts = append(opts, mcp.WithHTTPHeaders(staticHeaders.Clone()))
 	}
@@ -341,16 +366,41 @@ func execute(sp runSpec) *runResult {
 		defer restore()
 		opts = append(opts, mcp.WithServiceName(svcName), mcp.WithHTTPReqHandlerOption(&factoryOpt{Tag: sentinelTag}))
 	}
-	var cl *mcp.Client
-	var err error
-	if sp.client == clStream {
-		cl, err = mcp.NewClient(srv.base()+urlPath, kit.ClientInfo, opts...)
-	} else {
-		cl, err = mcp.NewSSEClient(srv.base()+urlPath, kit.ClientInfo, opts...)
+	c = sp.cfg
+	newClient := func(o []mcp.ClientOption) (*mcp.Client, error) {
+		if sp.client == clStream {
+			return mcp.NewClient(srv.base()+urlPath, kit.ClientInfo, o...)
+		}
+		return mcp.NewSSEClient(srv.base()+urlPath, kit.ClientInfo, o...)
 	}
+	// Shared base: another tenant's client is built from the same base option VALUES (plus its own header set)
+	// before and after the client under observation; neither ever sends anything.
+	decoy := func(name string) bool {
+		o := append([]mcp.ClientOption{mcp.WithClientLogger(kit.Quiet{})}, built.base...)
+		o = append(o, mcp.WithHTTPHeaders(http.Header{name: {"other-tenant"}, "X-Shared": {"other-tenant-shared"}}))
+		d, e := newClient(o)
+		if e != nil {
+			res.newErr = "decoy client: " + e.Error()
+			return false
+		}
+		res.decoys++
+		defer func() { _ = d.Close() }()
+		return true
+	}
+	if built != nil && cp.Decoy && !decoy(hdrDecoyPre) {
+		return res
+	}
+	cl, err := newClient(opts)
 	if err != nil {
 		res.newErr = err.Error()
 		return res
+	}
+	if built != nil {
+		if cp.Decoy && !decoy(hdrDecoyPost) {
+			return res
+		}
+		res.libTouched = built.touched()
+		res.inPlace = built.inPlace
 	}
 
 	nextVeto := false // the next call's context is refused by before-request
@@ -481,6 +531,12 @@ func execute(sp runSpec) *runResult {
 			}
 		case "init":
 			doInit()
+		case "mutate":
+			// the caller goes on using the header objects it handed to WithHTTPHeaders
+			if built != nil && res.mutatedAt < 0 {
+				built.mutate(cp.Mutate)
+				res.mutatedAt = srv.count()
+			}
 		case "reinit":
 			// Close and initialise the same client object again (the Streamable transport stays usable).
 			_ = cl.Close()
@@ -701,7 +757,32 @@ func (j *judge) run(res *runResult) {
 	desc := map[string]interface{}{"client": client, "configuration": c.String(), "configuration_mask": mask,
 		"history": sp.label + ": " + histString(res.executed), "before_request_fails_at": sp.failAt, "first_handshake_fails_by": sp.retry,
 		"served_path": res.served, "announced_message_path": res.msgPath, "session_id_prefix": res.sid}
+	cp := sp.comp
+	fam := "" // composition pass: the option family a violation is about ("": none in particular)
+	var compExp map[string][]hdrEntry
+	if cp != nil {
+		desc["composition"] = cp
+		desc["other_clients_built_from_the_shared_base"] = res.decoys
+		var zero int
+		compExp, zero = cp.expect()
+		r.Count("comp_runs", 1)
+		r.Count("comp_runs|"+client, 1)
+		r.Count("comp_configured_keys_without_any_value", int64(zero))
+		r.SetAdd("comp_profiles", cp.profile())
+		if cp.Random {
+			r.Count("comp_runs_random", 1)
+		}
+		if res.decoys > 0 {
+			r.Count("comp_runs_with_other_clients_on_the_shared_base", 1)
+		}
+		if res.libTouched > 0 {
+			r.Count("comp_caller_header_objects_changed_by_client_construction", int64(res.libTouched))
+		}
+	}
 	viol := func(kind, symptom, what string, extra map[string]interface{}) {
+		if cp != nil {
+			symptom += "|" + cp.famTag(fam)
+		}
 		w := map[string]interface{}{}
 		for k, v := range desc {
 			w[k] = v
@@ -777,6 +858,13 @@ func (j *judge) run(res *runResult) {
 	wantLabel := "factory"
 	if c.R {
 		wantLabel = "explicit"
+		if cp != nil {
+			wantLabel = handlerLabel(cp.count("R")) // the last WithHTTPReqHandler option
+		}
+	}
+	nBefore := 1 // number of before-request functions configured
+	if cp != nil {
+		nBefore = cp.count("B")
 	}
 	seenBefore := map[string]int{}
 	seenSeq := map[string]int{}
@@ -784,9 +872,25 @@ func (j *judge) run(res *runResult) {
 	for _, s := range res.srv {
 		r.Eval(1)
 		r.Count("requests_judged", 1)
-		r.Count("n|"+client+"|"+s.Kind, 1)
-		r.SetAdd("kinds", client+":"+s.Kind)
-		r.Distinct(fmt.Sprintf("%s|%s|%d", client, s.Kind, mask))
+		if cp != nil {
+			r.Count("comp_requests_judged", 1)
+			r.Count("comp_n|"+client+"|"+s.Kind, 1)
+			name := cp.Name
+			if cp.Random {
+				name = "random:" + cp.profile()
+			}
+			r.Distinct(fmt.Sprintf("comp|%s|%s|%s", name, client, s.Kind))
+			for _, o := range []string{"H", "B", "R", "P", "S", "O"} {
+				r.Count(fmt.Sprintf("comp_requests|%s|%s", client, cp.famTag(o)), 1)
+			}
+			if res.decoys > 0 {
+				r.Count("comp_requests_judged_with_other_clients_on_the_shared_base", 1)
+			}
+		} else {
+			r.Count("n|"+client+"|"+s.Kind, 1)
+			r.SetAdd("kinds", client+":"+s.Kind)
+			r.Distinct(fmt.Sprintf("%s|%s|%d", client, s.Kind, mask))
+		}
 		if isSucc {
 			r.Count("succession_requests_judged", 1)
 		}
@@ -830,9 +934,16 @@ func (j *judge) run(res *runResult) {
 		extra := map[string]interface{}{"request_at_server": view, "before_request_log": bj, "handler_log": hj, "operation": op, "expected_ctx_token": expTok}
 		bad := 0
 		fail := func(symptom, what string) { bad++; viol(s.Kind, symptom, what, extra) }
+		cfail := func(f, symptom, what string) { fam = f; fail(symptom, what); fam = "" }
 
 		// (1) static headers: every configured value, and nothing else under those names
+		if cp != nil {
+			j.compHeaders(res, s, compExp, cfail)
+		}
 		for name, vals := range staticHeaders {
+			if cp != nil {
+				break
+			}
 			got := s.Header.Values(name)
 			if !c.H {
 				if len(got) != 0 {
@@ -903,7 +1014,13 @@ func (j *judge) run(res *runResult) {
 				if c.P {
 					sym = "custom-path-ignored"
 				}
-				fail(sym, fmt.Sprintf("request went to path %q, configured path is %q", s.Path, res.served))
+				if cp != nil && contains(res.alts, s.Path) {
+					sym = "earlier-custom-path-used"
+				}
+				cfail("P", sym, fmt.Sprintf("request went to path %q, configured path is %q (WithClientPath options in order: %q)", s.Path, res.served, res.alts))
+			} else if cp != nil && len(res.alts) > 1 {
+				r.Count("comp_outcome|path|last-wins", 1)
+				r.SetAdd("comp_outcomes", client+":path:last-wins")
 			}
 		} else {
 			if s.Path != res.msgPath {
@@ -916,17 +1033,84 @@ func (j *judge) run(res *runResult) {
 		if handlerConfigured {
 			switch {
 			case len(seqs) == 0:
-				fail("bypasses-handler", "request reached the server without passing through the configured request handler ("+wantLabel+")")
+				cfail("R", "bypasses-handler", "request reached the server without passing through the configured request handler ("+wantLabel+")")
 			case len(seqs) > 1:
-				fail("handler-applied-twice", fmt.Sprintf("request passed the request handler %d times", len(seqs)))
+				cfail("R", "handler-applied-twice", fmt.Sprintf("request passed the request handler %d times", len(seqs)))
 			case s.Header.Get(hdrHandler) != wantLabel:
-				fail("wrong-handler", fmt.Sprintf("request passed handler %q, configured is %q", s.Header.Get(hdrHandler), wantLabel))
+				cfail("R", "wrong-handler", fmt.Sprintf("request passed handler %q, configured is %q", s.Header.Get(hdrHandler), wantLabel))
+			case cp != nil && cp.count("R") > 1:
+				r.Count("comp_outcome|handler|last-wins", 1)
+				r.SetAdd("comp_outcomes", client+":handler:last-wins")
 			}
 		} else if len(seqs) != 0 {
 			r.Fatal("request tagged by a handler although none is configured: %+v", view)
 		}
 		// (5) before-request exactly once, with the calling operation's context values
-		if c.B {
+		if cp != nil && c.B {
+			// several functions may be configured: the last one given is in force and must have run exactly
+			// once; an earlier one may have run as well (combined) or not (overridden), never twice
+			var recs []*beforeRec
+			perFn := map[int]int{}
+			for _, t := range befs {
+				b := beforeByN[t]
+				if b == nil {
+					r.Fatal("before tag %q without log entry", t)
+				}
+				recs = append(recs, b)
+				perFn[b.Fn]++
+			}
+			if len(recs) > 0 {
+				bj = recs[0]
+				extra["before_request_log"] = recs
+				if expTok == "" && isBackground(s.Kind) {
+					expTok = bj.HS
+					extra["expected_ctx_token"] = expTok
+				}
+			}
+			twice := false
+			for _, n := range perFn {
+				if n > 1 {
+					twice = true
+				}
+			}
+			switch {
+			case len(recs) == 0:
+				cfail("B", "before-request-not-called", "request reached the server without having passed through any before-request function")
+			case twice:
+				cfail("B", "before-request-called-twice", fmt.Sprintf("request passed one before-request function more than once (function ordinal -> calls: %v)", perFn))
+			case perFn[nBefore] == 0:
+				cfail("B", "last-before-request-not-called", fmt.Sprintf("request passed before-request function(s) %v but not the last one configured (#%d), which nothing overrides", perFn, nBefore))
+			default:
+				if nBefore > 1 {
+					out := "earlier-and-last-run"
+					if len(recs) == 1 {
+						out = "last-wins"
+					}
+					r.Count("comp_outcome|before-request|"+out, 1)
+					r.SetAdd("comp_outcomes", client+":before-request:"+out)
+				}
+			}
+			var want []string
+			for _, b := range recs {
+				if b.Failed {
+					continue // judged below (nothing may be sent)
+				}
+				want = append(want, b.Token)
+				if expTok != "" && b.Token != expTok {
+					cfail("B", ctxSymptom("before-request", b.Token), fmt.Sprintf("before-request function #%d saw context token %q, the calling operation's is %q", b.Fn, b.Token, expTok))
+				}
+			}
+			ctxVals := s.Header.Values(hdrCtx)
+			switch {
+			case len(want) == 0:
+			case sameMultiset(ctxVals, want):
+				r.Count("context_header_exact", 1)
+			case subMultiset(ctxVals, want):
+				cfail("B", "before-request-header-lost", fmt.Sprintf("the before-request functions added %s: %q, the request arrived with %q", hdrCtx, want, ctxVals))
+			default:
+				cfail("B", "foreign-before-request-header", fmt.Sprintf("request carries %s: %q, the before-request functions added exactly %q for this request", hdrCtx, ctxVals, want))
+			}
+		} else if c.B {
 			switch {
 			case len(befs) == 0:
 				fail("before-request-not-called", "request reached the server without having passed through the before-request function")
@@ -945,12 +1129,15 @@ func (j *judge) run(res *runResult) {
 		// (5b) what before-request added for THIS request's context is on the request once, and nothing that it
 		// added for another request
 		ctxVals := s.Header.Values(hdrCtx)
+		if cp != nil && c.B {
+			ctxVals = nil // judged above
+		}
 		if !c.B && len(ctxVals) != 0 {
 			r.Fatal("request carries a before-request context header although none is configured: %+v", view)
 		}
 		own := "" // what before-request added for this request: known from its log entry, else from the calling operation
 		switch {
-		case !c.B || (bj != nil && bj.Failed):
+		case !c.B || (bj != nil && bj.Failed) || cp != nil:
 		case bj != nil:
 			own = bj.Token
 		case len(befs) > 1:
@@ -987,7 +1174,14 @@ func (j *judge) run(res *runResult) {
 			curSid = ""
 			terminations++
 		}
-		if mask == 15 && sp.failAt == 0 && sp.label == "canonical" && (sp.retry == "" || sp.retry == "503") {
+		if cp != nil && strings.HasPrefix(cp.Name, "all-twice") && !strings.Contains(cp.Name, "reversed") {
+			key := "comp|" + client + "|" + s.Kind
+			if _, ok := j.samples[key]; !ok {
+				j.samples[key] = map[string]interface{}{"client": client, "composition": cp, "request_at_server": view,
+					"before_request_log": extra["before_request_log"], "handler_log": hj, "operation": op, "expected_ctx_token": expTok, "conforming": bad == 0}
+			}
+		}
+		if cp == nil && mask == 15 && sp.failAt == 0 && sp.label == "canonical" && (sp.retry == "" || sp.retry == "503") {
 			key := client + "|" + s.Kind
 			if sp.retry != "" {
 				key = "retry|" + key + "|" + strconv.Itoa(s.Status)
@@ -1078,6 +1272,19 @@ func (j *judge) run(res *runResult) {
 		if b.Failed || (sp.retry == "refuse" && b.CurOp == 0) {
 			continue
 		}
+		if cp != nil && nBefore > 1 {
+			// several before-request functions: the request was refused by another function of the same call
+			refused := false
+			for _, o := range res.before {
+				if o.Failed && o.Fn != b.Fn && o.Kind == b.Kind && o.CurOp == b.CurOp && o.Token == b.Token {
+					refused = true
+				}
+			}
+			if refused {
+				r.Count("comp_before_request_ran_for_a_request_another_function_refused", 1)
+				continue
+			}
+		}
 		viol(b.Kind, "lost-after-before-request", "request passed the before-request function but never reached the server", map[string]interface{}{"before_request_log": b})
 	}
 	for _, h := range res.handler {
@@ -1137,7 +1344,39 @@ func (j *judge) run(res *runResult) {
 		viol(op.Kind, "operation-failed", fmt.Sprintf("%s failed against the reference server: %s", op.Name, trunc(op.Err, 200)), map[string]interface{}{"operation": op})
 	}
 	// handler factory received what was configured
-	if c.F && !c.R {
+	if cp != nil && c.F && !c.R {
+		r.Eval(1)
+		r.Distinct(fmt.Sprintf("comp|%s|handler-factory|S%dO%d", client, cp.count("S"), cp.count("O")))
+		r.Count("comp_factory_calls", int64(len(res.factory)))
+		if len(res.factory) == 0 {
+			fam = "O"
+			viol("handler-factory", "not-used", "NewHTTPReqHandler was overridden but never called", nil)
+		}
+		for _, fc := range res.factory {
+			if n := cp.count("S"); n > 0 {
+				fam = "S"
+				if fc.ServiceName != serviceName(n) {
+					viol("handler-factory", "service-name-not-passed", fmt.Sprintf("factory received service name %q, the last WithServiceName option configured %q", fc.ServiceName, serviceName(n)), map[string]interface{}{"factory_call": fc})
+				} else if n > 1 {
+					r.Count("comp_outcome|service-name|last-wins", 1)
+					r.SetAdd("comp_outcomes", client+":service-name:last-wins")
+				}
+			}
+			fam = "O"
+			for o := 1; o <= cp.count("O"); o++ {
+				if !contains(fc.Tags, optionTag(o)) {
+					viol("handler-factory", "handler-option-not-passed", fmt.Sprintf("factory did not receive handler option #%d (WithHTTPReqHandlerOption adds options); it received %q", o, fc.Tags), map[string]interface{}{"factory_call": fc})
+				} else if cp.count("O") > 1 {
+					r.Count("comp_outcome|handler-option|every-option-passed", 1)
+					r.SetAdd("comp_outcomes", client+":handler-option:every-option-passed")
+				}
+			}
+			if len(fc.Tags) > cp.count("O") {
+				r.Count("factory_option_received_more_than_once", 1)
+			}
+		}
+		fam = ""
+	} else if c.F && !c.R {
 		r.Eval(1)
 		r.Distinct(fmt.Sprintf("%s|handler-factory|%d", client, mask))
 		r.Count("factory_calls", int64(len(res.factory)))
@@ -1167,7 +1406,12 @@ func (j *judge) run(res *runResult) {
 		r.Eval(1)
 		r.Count("vetoed_requests_judged", 1)
 		r.SetAdd("vetoed_kinds", client+":"+failed.Kind)
-		if sp.retry != "" {
+		if cp != nil {
+			fam = "B"
+			r.Count("comp_vetoed_requests_judged", 1)
+			r.Count(fmt.Sprintf("comp_vetoed_requests_judged|%s", cp.famTag("B")), 1)
+			r.Distinct(fmt.Sprintf("comp-veto|%s|%s|%s", client, failed.Kind, cp.famTag("B")))
+		} else if sp.retry != "" {
 			r.Distinct(fmt.Sprintf("retry-veto|%s|%s|%d", client, failed.Kind, mask))
 		} else {
 			r.Distinct(fmt.Sprintf("veto|%s|%s|%d", client, failed.Kind, mask))
@@ -1314,13 +1558,32 @@ func main() {
 			}
 		}
 	}
+	// fifth pass: composed option lists - every option 0, 1, 2 or 3 times, in different orders, header sets with
+	// disjoint / overlapping / differently spelled keys, a base shared by several clients, and a caller that goes
+	// on using the header objects it handed over
+	compRandom := r.Pick(16, 120)
+	for _, client := range clients {
+		for _, cp := range systematicCompositions() {
+			j.run(execute(runSpec{client: client, cfg: cp.cfg(), comp: cp, hist: compHistory(client, cp), label: "composed-" + cp.Name}))
+		}
+		rng := r.Rand("compose-" + client)
+		for k := 0; k < compRandom; k++ {
+			cp := randomComposition(rng, k)
+			hist := compHistory(client, cp)
+			if k%2 == 1 {
+				hist = compRandomHistory(client, cp, rng)
+			}
+			j.run(execute(runSpec{client: client, cfg: cp.cfg(), comp: cp, hist: hist, label: "composed-" + cp.Name}))
+		}
+	}
 	if fmt.Sprintf("%p", mcp.NewHTTPReqHandler) != fmt.Sprintf("%p", origFactory) {
 		r.Fatal("NewHTTPReqHandler was not restored")
 	}
 
 	// samples: a few recorded requests with their joined logs
-	for _, key := range []string{clStream + "|initialize", clStream + "|" + kGetStream, clStream + "|" + kRootsAnswer, clStream + "|" + kDelete,
-		clLegacy + "|" + kConnect, "retry|" + clLegacy + "|" + kConnect + "|200"} {
+	for _, key := range []string{clStream + "|initialize", clStream + "|" + kRootsAnswer, clStream + "|" + kDelete, clLegacy + "|" + kConnect,
+		"comp|" + clLegacy + "|" + kConnect, "comp|" + clLegacy + "|" + kRootsAnswer, // composition pass (the evidence keeps six samples)
+		clStream + "|" + kGetStream, "retry|" + clLegacy + "|" + kConnect + "|200", "comp|" + clStream + "|" + kDelete} {
 		if s, ok := j.samples[key]; ok {
 			r.Sample(s)
 		}
@@ -1357,6 +1620,35 @@ func main() {
 		r.Require(r.Counter("n_after_termination|"+k) > 0, "request kind %s was never observed after a session termination on the same client", k)
 	}
 	r.Require(r.Counter("context_header_exact") > 0, "no request with a before-request context header was judged")
+	// composition pass: every request kind of both clients under composed options, every multiplicity of every
+	// option family, both kinds of header-name collision, requests after the caller's mutation, a shared base
+	for _, cl := range clients {
+		for _, k := range want[cl] {
+			r.Require(r.Counter("comp_n|"+cl+"|"+k) > 0, "composition pass: request kind %s of the %s client was never observed", k, cl)
+			r.Require(r.Counter("comp_n_after_caller_mutation|"+cl+"|"+k) > 0, "composition pass: request kind %s of the %s client was never observed after the caller had mutated its header objects", k, cl)
+		}
+		for fam, max := range map[string]int{"H": 3, "B": 3, "R": 3, "P": 3, "S": 2, "O": 3} {
+			for n := 0; n <= max; n++ {
+				key := fmt.Sprintf("comp_requests|%s|%s-x%d", cl, famNames[fam], n)
+				r.Require(r.Counter(key) > 0, "composition pass: no request of the %s client was judged with the %s option given %d times", cl, famNames[fam], n)
+			}
+		}
+	}
+	for _, k := range []string{"one-set", "several-sets", "multi-valued", "key-given-in-non-canonical-form", "empty-value-carried"} {
+		r.Require(r.Counter("comp_header_names_judged|"+k) > 0, "composition pass: no configured header name of class %q was judged on any request", k)
+	}
+	for _, k := range []string{"comp_requests_judged_after_caller_mutation|api", "comp_requests_judged_after_caller_mutation|in-place",
+		"comp_requests_judged_with_other_clients_on_the_shared_base", "comp_vetoed_requests_judged|before-request-x2", "comp_vetoed_requests_judged|before-request-x3",
+		"comp_factory_calls", "comp_runs_random"} {
+		r.Require(r.Counter(k) > 0, "composition pass: counter %s is zero", k)
+	}
+	if n := r.Counter("comp_in_place_write_visible_on_request"); n > 0 {
+		r.Note(fmt.Sprintf("observation outside the statement: WithHTTPHeaders keeps the caller's value slices (client.go: c.transportConfig.httpHeaders[k] = v, streamable_client.go withTransportHTTPHeaders: t.httpHeaders[k] = v): on %d requests a value the caller wrote IN PLACE into a slice it had handed over (h[k][i] = ...) after the client was built was sent instead of the configured one (%d requests did not show it). Mutations through the map / Header API (Set, Add, Del, new keys) never changed what was sent.",
+			n, r.Counter("comp_in_place_write_not_visible_on_request")))
+	}
+	if n := r.Counter("comp_caller_header_objects_changed_by_client_construction"); n > 0 {
+		r.Note(fmt.Sprintf("observation outside the statement: building clients changed %d of the caller's http.Header objects", n))
+	}
 	if n := r.Counter("retry_no_listening_stream_after_503"); n > 0 {
 		r.Note(fmt.Sprintf("observation outside the statement: in %d retry histories the Streamable client opened no listening stream after the retried handshake: an initialize answered 503 (no session id) sets isStateless/enableGetSSE=false in send() before the status check, and the later successful handshake does not switch GET SSE back on", n))
 	}
@@ -1372,7 +1664,9 @@ func main() {
 		"Fourth pass, succession histories (all 32 configurations x 2 clients; quick 1, thorough 4 per configuration, thorough adds 3 seeded before-request veto positions each): after Initialize a seeded random Euler circuit over the operation kinds {6 request methods, roots list_changed, server-issued roots/list, server-issued unknown method, TerminateSession, an operation answered 503 then retried, an operation vetoed by before-request then retried, Streamable only: Close + Initialize on the same client object}, so that every kind is directly followed by every kind (itself included) on ONE client object, each call under its own context token. A terminated Streamable session stays terminated for the step that follows the DELETE (sent without session), then the harness re-initialises; the succession this separates is executed again at the end. The reference server hands out a fresh session id per initialize / legacy connect. "+
 		"Per request at the server, exact multiplicities: each configured static header with exactly its configured values (none when not configured); Mcp-Session-Id exactly once with the id handed out by the latest answered initialize that was not deleted since, and absent while none is current (first initialize, everything between a DELETE and the next handshake's answer; an id handed out earlier is reported as stale, two values as duplicated); exactly one before-request tag; the context header that before-request adds from its ctx exactly once with this request's own token (another request's token next to it is reported as foreign). "+
 		"Foreground requests must show the token of their own call, background requests the token of the latest started Initialize (the one whose handshake opened their stream), in the before-request log and in the handler log; a token of the failed attempt is reported as stale. Context tokens are unique per run, so a value leaking from an earlier, closed client of the same process would also be seen. "+
-		"A case is distinct by (client, request kind, configuration bitmask), vetoed cases by (client, vetoed request kind, bitmask), retry cases by (failure mode, client, request kind, bitmask), successions by (client, ordered pair of kinds, static headers y/n, before-request y/n; only steps during which a request reached the server); all judged requests count, conforming or not. "+
+		"Fifth pass, composed option lists (both clients): 46 named lists + seeded random ones (quick 16, thorough 120 per client) in which WithHTTPHeaders, WithHTTPBeforeRequest, WithHTTPReqHandler, WithClientPath, WithServiceName and WithHTTPReqHandlerOption are each given 0, 1, 2 or 3 times in different orders: header sets with disjoint keys, the same key in two or three sets, keys that differ only in case across sets and within one set, keys given in non-canonical form, multi-valued headers, empty values, keys without values, nil and empty sets between others, the same option value twice; two other clients built before and after from the same base option values plus their own header set; the caller changing its header objects after NewClient or after Initialize (Set / delete / append / new key through the map API; separately: writes into the value slices it handed over). History: canonical + a call vetoed by every before-request function and retried + a call answered 503 and retried + (Streamable) terminate, Close, Initialize, more traffic, terminate; every second random list runs a random history instead. "+
+		"Judged per request in that pass: a header name configured by one set only - exactly its values; a name configured by several sets (same canonical name) - at least the values of the last set naming it and nothing no set configured under it (merge or later-wins both accepted and counted); no header of another client, nothing the caller wrote after construction through the map API; the LAST before-request function exactly once (earlier ones at most once; counted), with the caller's context token; the LAST request handler, the LAST path (the server serves the earlier ones too, to tell 'earlier path used' from 'path ignored'), the factory receives the LAST service name and EVERY handler option; session id, veto and lost/duplicate rules as in the other passes. "+
+		"A case is distinct by (client, request kind, configuration bitmask), composed cases by (list name or multiplicity profile, client, request kind), vetoed cases by (client, vetoed request kind, bitmask), retry cases by (failure mode, client, request kind, bitmask), successions by (client, ordered pair of kinds, static headers y/n, before-request y/n; only steps during which a request reached the server); all judged requests count, conforming or not. "+
 		"Non-vacuity: every succession history without veto must have executed all n*n ordered pairs (169 Streamable, 144 legacy), and every Streamable request kind must have been judged after a termination on the same client.",
 		[]string{
 			"there is no public option for a custom http.Client; the recording request handler substitutes its own client, so 'through the configured handler' also covers 'with the configured client'",
@@ -1387,6 +1681,10 @@ func main() {
 			"'once one has been issued, the session id' is read as: the id currently in force - after a successful DELETE none is, until the next initialize is answered; an initialize sent after Close WITHOUT termination may (and with this library does) carry the still-valid id",
 			"a call the harness made fail by a scripted 503, and TerminateSession while no session is current, may return an error or not; only the requests they emit are judged",
 			"the legacy SSE client cannot be initialised again after Close and its TerminateSession sends nothing, so Close + Initialize successions exist for the Streamable client only",
+			"composed option lists: the statement's 'configured' is read as 'in force after the whole option list was applied, as handed over at construction'. Common to both readings of a repeated option (later overrides earlier / they combine) is that the last instance is in force, so only that is required; which of the two the library does is counted (comp_outcome|...). WithHTTPReqHandlerOption is documented as ADDING options, so every one must reach the factory",
+			"header names are compared in canonical form (HTTP header names are case-insensitive; the reference server is net/http); a configured header with an empty value must arrive with an empty value; a configured key without any value configures nothing",
+			"a caller writing IN PLACE into a value slice it handed to WithHTTPHeaders (no Header-API call does that) is not decided by the statement (Go APIs commonly retain caller slices): counted and reported as a note, not judged; mutations through the map / Header API are judged",
+			"violations of the composition pass carry the option family and its multiplicity as a fifth signature segment (e.g. |static-headers-x2), other symptoms there |composed-options",
 			"client sockets are reset on close (SO_LINGER 0) to keep thousands of short-lived clients from exhausting ephemeral ports; the 'refuse' mode hangs up on accepted connections instead of unbinding the port",
 		})
 }
